@@ -90,7 +90,7 @@ def show(v, depth=6):
 
 class Store:
     """a write through a pointer: *root.path := value"""
-    __slots__ = ('root', 'path', 'value', 'point', 'span', 'via_call', 'owner')
+    __slots__ = ('root', 'path', 'value', 'point', 'span', 'via_call', 'owner', 'phi_pred')
 
     def __init__(self, root, path, value, point, span, via_call=False):
         self.root = root
@@ -100,6 +100,7 @@ class Store:
         self.span = span
         self.via_call = via_call
         self.owner = None
+        self.phi_pred = None
 
     def fields(self):
         return tuple(p for p in self.path if p != '*')
@@ -600,14 +601,16 @@ class Body:
             if sb0.kind == 'phi' and len(path) >= 1 and path[0] == '*' and sb0.args and all(strip(a) is not None and strip(a).kind == 'ref' for a in sb0.args) and len(sb0.args) == len(sb0.extra.get('preds', ())):
                 # a write through a reference chosen among several places (`let link = if c { &mut p.left } else { &mut p.right };
                 # *link = v`): one store per candidate place
-                seen_t = set()
-                for a in sb0.args:
+                seen_t = {}
+                for a, pb_ in zip(sb0.args, sb0.extra['preds']):
                     ra = strip(a)
                     key_t = (strip(ra.args[0]).id, tuple(map(str, ra.args[1])))
                     if key_t in seen_t:
+                        seen_t[key_t].phi_pred = None        # reached from several sides: no single deciding edge
                         continue
-                    seen_t.add(key_t)
                     st = Store(ra.args[0], ra.args[1] + path[1:], v, pt, span)
+                    seen_t[key_t] = st
+                    st.phi_pred = pb_                        # the side of the choice on which this place is the one written
                     st.owner = ra.extra.get('last_owner')
                     st.via_call = 'may'
                     self.stores.append(st)
